@@ -18,6 +18,9 @@ fn cfgs() -> Vec<Entry> {
     c!(v, false,"general",A32D,Track,dyn Cloneable);
     c!(v, false,"general",A64D,Track,dyn Cloneable);
     c!(v, false,"general",L160,Track,dyn Cloneable);
+    c!(v, false,"general",F40D,Track,dyn Cloneable);
+    c!(v, false,"general",S72,Track,dyn Cloneable);
+    #[cfg(feature = "alloc")] { c!(v, false,"general",S72,Heap,dyn Cloneable); }
     v
 }
 fn main() { anyvec_mc::main_with(cfgs) }
